@@ -34,6 +34,7 @@ def run(chk, repo: Repo):
     chk.rule("C10-R4", "Gamma(shape = m/2 + alpha, rate = ||L(Ax-b)||^2/2 + beta) with m counted on the data and L at unit hyper-parameter", floor=3)
     conj = repo.cls(f"{EXP}:Conjugate")
     _r1(chk, repo, conj)
+    _r1_legacy(chk, repo)
     _r2(chk, repo, conj)
     _r3(chk, repo)
     _r4(chk, repo)
@@ -138,6 +139,27 @@ def _r1(chk, repo, conj):
         t = _norm(f)
         ok = ("[1.0,10.0,100.0]" in t) and (f"np.allclose(f(x),{val})" in t or f"math.isclose(f(x),{val})" in t) and "all(" in t
         chk.add("C10-R1", f"{EXP}:{name}", ok, site(repo, f), f"probes f at 1, 10, 100 against {val}", "probe helper does not compare f at three scales against the required form", f)
+
+
+def _r1_legacy(chk, repo):
+    leg = repo.cls(f"{LEG}:Conjugate")
+    init = repo.method(leg, "__init__")[1]
+    g = CFG(init)
+    store = [n for n in g.nodes if isinstance(n.ast, ast.Assign) and path_of(n.ast.targets[0]) == "self.target"]
+    if len(store) != 1:
+        raise AnchorError("legacy Conjugate.__init__: store of the target not found")
+    guards = {(_norm(t.ast), lab) for t, lab in g.guards_of(store[0])}
+    basic = [("isinstance(target.likelihood.distribution,(Gaussian,GMRF,RegularizedGaussian,RegularizedGMRF))", "T"),
+             ("isinstance(target.prior,Gamma)", "T"), ("target.prior.dim==1", "T")]
+    miss = [b[0] for b in basic if b not in guards]
+    chk.add("C10-R1", f"{leg.qual}.__init__/family", not miss, site(repo, init), "family, Gamma prior and dim == 1 are required before the target is stored",
+            f"legacy Conjugate stores its target without requiring {miss}", init)
+    probed = any(isinstance(c, ast.Call) and (call_name(c) or "").split(".")[-1] in
+                 ("_get_conjugate_parameter", "_check_conjugate_parameter_is_scalar_identity", "_check_conjugate_parameter_is_scalar_reciprocal")
+                 for c in ast.walk(init))
+    chk.add("C10-R1", f"{leg.qual}.__init__/functional-form", probed, site(repo, init), "dependence of cov/prec on the hyper-parameter is probed",
+            "legacy Conjugate never checks HOW the Gaussian depends on the hyper-parameter (the experimental sampler probes the callable): "
+            "a posterior with cov = 1/s**2, cov = s or several occurrences of s is accepted and sampled with the Gamma update of cov = 1/s", init)
 
 
 def _isinstance_tables(fn) -> List[str]:
